@@ -5,14 +5,15 @@ use std::collections::{HashSet, VecDeque};
 use embedded_cli::__verif::Editor;
 use serde_json::{json, Value};
 use vmodel::{
-    engine::{fingerprint, Failure, ShardCtx, Verdict},
+    engine::{fingerprint, Failure, ShardCtx, Tier, Verdict},
     refs::RefEditor,
     session::OwnedBuf,
 };
 
 use super::{
+    fuzzdrv,
     lockstep::{replay_lockstep, run_lockstep_shard, Flags, GenOpts},
-    Check, DEFAULT,
+    Check, PrepError, DEFAULT,
 };
 
 const FLAGS: Flags = Flags {
@@ -28,6 +29,7 @@ pub fn check() -> Check {
     Check {
         id: "C05",
         run_shard,
+        prepare: Some(prepare),
         replay,
         floor_quick: 5_000,
         floor_thorough: 100_000,
@@ -233,14 +235,25 @@ fn run_shard(ctx: &ShardCtx) {
     let enumerated = ctx.res.borrow().evaluations;
     ctx.class_n("closure:edges checked", enumerated);
 
-    let opts = GenOpts {
+    run_lockstep_shard(ctx, "editor-session", "C05", ctx.tier.pick(1_500_000, 15_000_000), opts(ctx.tier), SETS, FLAGS);
+    // what the coverage-guided campaign (prepare) kept, re-run and classified in the plain harness build
+    fuzzdrv::replay_lock_corpus(ctx, "C05", "editor-session", FLAGS);
+}
+
+const SETS: &[&str] = &["raw", "raw", "enum", "group"];
+
+fn opts(tier: Tier) -> GenOpts {
+    GenOpts {
         writes: 2,
         set_prompts: 2,
         scripts: true,
-        max_ops: ctx.tier.pick(50, 120),
+        max_ops: tier.pick(50, 120),
         quotes: true,
-    };
-    run_lockstep_shard(ctx, "editor-session", "C05", ctx.tier.pick(1_500_000, 15_000_000), opts, &["raw", "raw", "enum", "group"], FLAGS);
+    }
+}
+
+fn prepare(tier: Tier, seed: u64, _dir: &std::path::Path) -> Result<Value, PrepError> {
+    fuzzdrv::prepare_lockstep("C05", "editor-session", "editor", opts(tier), SETS, tier, seed)
 }
 
 fn replay(sub: &str, case: &Value) -> Verdict {
